@@ -277,7 +277,7 @@ int renameat(int ofd, const char *o, int nfd, const char *n) {
 		long k = ++counter; struct plan pl = consult(k); char b1[4200], b2[4200]; int r, e;
 		const char *on = fdname(ofd, b1, sizeof b1), *nn = fdname(nfd, b2, sizeof b2);
 		if (pl.act == A_ERRNO) { r = -1; errno = pl.err; }
-		else if (getenv("VFIO_XDEV") && strcmp(on, nn) != 0) { r = -1; errno = EXDEV; }
+		else if (getenv("VFIO_XDEV") && *getenv("VFIO_XDEV") && strcmp(on, nn) != 0) { r = -1; errno = EXDEV; }
 		else r = real_renameat(ofd, o, nfd, n);
 		e = errno;
 		RES("%ld renameat %s/%s %s/%s = %d%s%s", k, on, o, nn, n, r, r >= 0 ? "" : " ", r >= 0 ? "" : errname(e));
@@ -526,7 +526,7 @@ struct dirent *readdir(DIR *d) {
 		const char *dn = fdname(dirfd(d), b1, sizeof b1);
 		if (pl.act == A_ERRNO) { r = NULL; errno = pl.err; } else r = real_readdir(d);
 		e = errno;
-		if (r && getenv("VFIO_DTUNKNOWN")) r->d_type = DT_UNKNOWN;   /* a file system that does not report file types */
+		if (r && getenv("VFIO_DTUNKNOWN") && *getenv("VFIO_DTUNKNOWN")) r->d_type = DT_UNKNOWN;   /* a file system that does not report file types */
 		if (r) RES("%ld readdir %s = %s", k, dn, r->d_name);
 		else RES("%ld readdir %s = NULL%s%s", k, dn, pl.act == A_ERRNO ? " " : "", pl.act == A_ERRNO ? errname(e) : "");
 		errno = e; return r;
